@@ -181,6 +181,36 @@ def mc_run(name, module, cfg, workers=6, timeout=3000, xmx="8g"):
         json.dump(r, open(path, "w"))
         return r
 
+def apalache_run(name, mc_module, timeout=3000):
+    """Inductive check of the bookkeeping lemma (spec/apalache/SchedInd.tla over SchedCore) with
+    Apalache: base case (--length=0 from Init) and inductive step (--length=1 from IndInit).
+    Cached by the content of the modules."""
+    d = os.path.join(SPEC, "apalache")
+    h = hashlib.sha1()
+    for f in ("SchedInd.tla", mc_module, "../SchedCore.tla"):
+        h.update(open(os.path.join(d, f), "rb").read())
+    path = os.path.join(CACHE, "apalache-%s-%s.json" % (name, h.hexdigest()[:16]))
+    with Lock("apalache-" + name):
+        if os.path.exists(path):
+            r = json.load(open(path)); r["cached"] = True
+            return r
+        out_dir = os.path.join(WORK, "apalache-%d" % os.getpid())
+        res = {"name": name, "tool": "apalache-mc", "module": mc_module, "cached": False, "steps": []}
+        t0 = time.time()
+        for what, args in (("base", ["--init=Init", "--length=0"]), ("step", ["--init=IndInit", "--length=1"])):
+            cmd = ["timeout", str(timeout), "apalache-mc", "check"] + args + \
+                  ["--next=Next", "--inv=IndInv", "--cinit=CInit", "--out-dir=" + out_dir, mc_module]
+            p = subprocess.run(cmd, cwd=d, stdout=subprocess.PIPE, stderr=subprocess.STDOUT, text=True)
+            ok = "The outcome is: NoError" in p.stdout
+            res["steps"].append({"what": what, "ok": ok, "rc": p.returncode})
+            if not ok:
+                shutil.rmtree(out_dir, ignore_errors=True)
+                raise ToolError("apalache %s (%s) did not pass (rc=%d):\n%s" % (mc_module, what, p.returncode, p.stdout[-2500:]))
+        shutil.rmtree(out_dir, ignore_errors=True)
+        res["wall_s"] = round(time.time() - t0, 1)
+        json.dump(res, open(path, "w"))
+        return res
+
 def module_key(module, cfg):
     """Hash of a module, its configuration and the local modules it extends (transitively)."""
     seen = []; todo = [os.path.basename(module)]
